@@ -27,6 +27,23 @@ Supported subset (anything else fails)
                `s.find('.')`, `s[<find> + 1:]`, `a + b` on str; `d[k]`, `d.keys()`, `d.pop(k)`,
                `{k: v for k, v in sorted(d.items(), key=lambda item: item[1])}`;
                the method calls `<map>.get(k)`, `<map>.remove(k)`, `<parent>.extended_key()`
+               additionally: `a if c else b`; tuples in `return` and `a, b = <tuple>`; `dict(sorted(d.items(),
+               key=lambda item: item[1]))`; `< <= > >= == !=` on ints (`s.find('.') >= 0`); messages built with `%`,
+               `.format`, `str()`, adjacent literals
+  helpers      a call of a PRIVATE HELPER -- a module-level function `f(..)`, a method `self.m(..)` that is not one
+               of the translated interface methods, a static method `self.m(..)` / `Cls.m(..)` -- is translated by
+               inlining the callee's body at the call site: arguments are evaluated first, in the order written, and
+               bound to the callee's parameters; `return e` inside the helper becomes the value of the call and the
+               text after the call continues there (an early return needs no `else`); a raise inside the helper
+               carries the object state as it is at that point of the CALLER (so a validation helper called after
+               the registration is seen to run after it); a helper called inside an expression may not change the
+               object.  Refused with file:line: recursion, *args / **kwargs, non-literal defaults, decorators other
+               than staticmethod, loops / try / with / nested defs in the body, a subclass overriding the helper,
+               `self` inside a function or static method.
+  shapes       control flow is translated in continuation-passing style, so guard clauses with early returns, nested
+               if / else, `elif`, `not (a or b)` / `not a and not b`, conditional expressions and locals holding a
+               sub-expression all yield the same or a provably equal text; coq/Params/GenAgree.v proves the
+               equalities by case analysis on the tests, not on the shape of the text.
 Meaning given to them (the trusted part; the fixed PRELUDE spells it out in Gallina)
   * a method that can raise yields `res T` (`Val x | Raise kind`); a method that changes its object
     yields `mres S A` (`MOk state result | MExn kind state`): the state AT THE RAISE is part of the
@@ -64,6 +81,7 @@ import ast
 import hashlib
 import json
 import os
+import re
 import sys
 import warnings
 from pathlib import Path
@@ -296,10 +314,10 @@ class Unsupported(Exception):
 
 class V:
     """a translated value: universe tag + atomic Gallina text (or a constant), facts live in the environment"""
-    __slots__ = ("ty", "tx", "const", "prov", "src")
+    __slots__ = ("ty", "tx", "const", "prov", "src", "items")
 
-    def __init__(self, ty, tx=None, const=None, prov=None):
-        self.ty, self.tx, self.const, self.prov, self.src = ty, tx, const, prov, None
+    def __init__(self, ty, tx=None, const=None, prov=None, items=None):
+        self.ty, self.tx, self.const, self.prov, self.src, self.items = ty, tx, const, prov, None, items
 
 
 def ind(text: str, n: int = 2) -> str:
@@ -478,6 +496,14 @@ class Module:
 class IgnCond(Exception):
     """the test of an `if` depends on ignored values only"""
 
+    def __init__(self, node=None):
+        self.node = node
+        super().__init__("test on ignored values")
+
+
+def within(node, root):
+    return node is not None and any(n is node for n in ast.walk(root))
+
 
 class Ctx:
     def __init__(self, mod, cls, name, fam, node):
@@ -486,6 +512,7 @@ class Ctx:
         self.sets_parent = False
         self.fuel = None           # name of the fuel variable available for recursive calls
         self.key = None
+        self.frames = []           # helper functions / methods being inlined at this point of the text
 
     def fresh(self, stem):
         stem = "".join(ch if ch.isalnum() or ch == "_" else "_" for ch in stem).strip("_") or "x"
@@ -686,6 +713,17 @@ class Translator:
             self.message_ok(a.left)
             self.message_ok(a.right)
             return
+        if isinstance(a, ast.BinOp) and isinstance(a.op, ast.Mod) and isinstance(a.left, ast.Constant) and isinstance(a.left.value, str):
+            items = list(a.right.elts) if isinstance(a.right, ast.Tuple) else [a.right]
+            if all(self.plain_ref(x) or isinstance(x, ast.Constant) for x in items):
+                return
+        if isinstance(a, ast.Call) and isinstance(a.func, ast.Attribute) and a.func.attr == "format" and not a.keywords and \
+                isinstance(a.func.value, ast.Constant) and isinstance(a.func.value.value, str) and \
+                all(self.plain_ref(x) or isinstance(x, ast.Constant) for x in a.args):
+            return
+        if isinstance(a, ast.Call) and isinstance(a.func, ast.Name) and a.func.id in ("str", "repr") and len(a.args) == 1 \
+                and not a.keywords and self.plain_ref(a.args[0]):
+            return
         if isinstance(a, ast.JoinedStr):
             for p in a.values:
                 if isinstance(p, ast.Constant):
@@ -708,7 +746,9 @@ class Translator:
     def if_(self, s, env, k):
         try:
             return self.cond(s.test, env, lambda e1: self.block(s.body, e1, k), lambda e1: self.block(s.orelse, e1, k))
-        except IgnCond:
+        except IgnCond as exc:
+            if not within(exc.node, s.test):
+                raise
             for st in list(s.body) + list(s.orelse):
                 ok = isinstance(st, (ast.Assign, ast.AnnAssign)) and \
                     all(isinstance(t, ast.Attribute) and isinstance(t.value, ast.Name) and t.value.id == "self"
@@ -722,6 +762,10 @@ class Translator:
 
     def return_(self, s, env):
         fam = self.ctx.fam
+        if self.ctx.frames:                       # inside an inlined helper: the value of the call
+            if s.value is None:
+                return self.frame_return(s, env, V("None"))
+            return self.expr(s.value, env, lambda v: self.frame_return(s, env, v))
         if s.value is None:
             if fam in ("set", "add", "mset", "madd", "ctor", "mapset"):
                 return self.end(s, env)
@@ -786,6 +830,110 @@ class Translator:
             return f"py_through_child self {r.prov[1]} {env.fields['_children'].tx} (f {r.tx})"
         return self.expr(e, env, fin)
 
+    # ------------------------------------------------------------------ private helpers are inlined at the call site
+    RESERVED_METHODS = ("get", "remove", "add", "set_value", "extended_key", "__init__", "value")
+
+    def helper_function(self, name):
+        """a module-level function of the module being translated (not decorated, defined once)"""
+        mod = self.ctx.mod
+        found = [st for st in mod.tree.body if isinstance(st, ast.FunctionDef) and st.name == name]
+        if len(found) != 1 or found[0].decorator_list:
+            return None
+        return found[0]
+
+    def helper_method(self, node, name):
+        """(FunctionDef, is static) of a helper method called on self, resolved along the bases of the class being
+        translated; refused when a class of the module built on the owner defines the name too (dynamic dispatch)"""
+        mod = self.ctx.mod
+        if name in self.RESERVED_METHODS:
+            return None, False
+        owner, f = mod.find_method(self.ctx.cls, name)
+        if f is None:
+            return None, False
+        deco = [ast.unparse(d) for d in f.decorator_list]
+        if deco not in ([], ["staticmethod"]):
+            self.fail(node, f"{owner}.{name} is called as a helper but is decorated with {deco}")
+        for c in mod.classes:
+            if c != owner and c in BASES and owner in mod.chain(c)[1:] and mod.own_method(c, name) is not None \
+                    and c not in mod.chain(self.ctx.cls):
+                self.fail(node, f"{c} overrides the helper {owner}.{name} (the call would dispatch on the object's class)")
+        return f, deco == ["staticmethod"]
+
+    def inline(self, node, f, call, env, k, selfless, what, owner="(module)"):
+        """translate the body of helper f at the call site `call`; k(value, environment after the call)"""
+        if any(fr["f"] is f for fr in self.ctx.frames) or f is self.ctx.node:
+            self.fail(node, f"recursive helper {f.name} (only the methods of the interface become fixpoints)")
+        if len(self.ctx.frames) >= 6:
+            self.fail(node, "helpers nested more than 6 deep")
+        self.scan(f)
+        a = f.args
+        if a.vararg or a.kwarg or a.posonlyargs:
+            self.fail(f, f"helper {f.name}: *args / **kwargs / positional-only parameters")
+        pos = [p.arg for p in a.args]
+        skip = 0 if selfless else 1
+        if not selfless and (not pos or pos[0] != "self"):
+            self.fail(f, f"helper {f.name}: first parameter is not `self`")
+        defaults = {}
+        for pa, d in list(zip(a.args[len(a.args) - len(a.defaults):], a.defaults)) + \
+                [(pa, d) for pa, d in zip(a.kwonlyargs, a.kw_defaults) if d is not None]:
+            if not isinstance(d, ast.Constant):
+                self.fail(d, f"helper {f.name}: default value of `{pa.arg}` is not a literal")
+            defaults[pa.arg] = d
+        self.note_source(self.ctx.mod, owner, f.name, f, f"(inlined at its call sites) {what} {f.name}")
+
+        def with_args(args):
+            e2 = env.clone()
+            e2.locals = {}
+            e2.refined = {}
+
+            def bind_defaults(names, i, e3):
+                if i == len(names):
+                    return run(e3)
+                n = names[i]
+                if args.get(n) is not None:
+                    e3.locals[n] = args[n]
+                    return bind_defaults(names, i + 1, e3)
+                if n not in defaults:
+                    self.fail(call, f"{f.name}() called without a value for `{n}`")
+                return self.expr(defaults[n], e3, lambda v: (e3.locals.__setitem__(n, v), bind_defaults(names, i + 1, e3))[1])
+
+            def run(e3):
+                frame = {"f": f, "k": k, "caller": env, "selfless": selfless}
+                self.ctx.frames.append(frame)
+                try:
+                    return self.block(self.body_of(f), e3, lambda e4: self.frame_return(f, e4, V("None")))
+                finally:
+                    assert self.ctx.frames.pop() is frame
+            return bind_defaults(pos[skip:] + [p.arg for p in a.kwonlyargs], 0, e2)
+        return self.bind_args(call, call, f, env, with_args, skip_self=not selfless)
+
+    def frame_return(self, node, env, v):
+        """`return v` (or the end of the body) of the helper being inlined: continue with the caller's text.  The frame
+        is off the stack while the caller's continuation is translated."""
+        fr = self.ctx.frames.pop()
+        try:
+            caller = fr["caller"]
+            out = env.clone()
+            out.locals = dict(caller.locals)
+            out.refined = dict(caller.refined)
+            same = all((out.fields.get(a) is caller.fields.get(a)) or
+                       (out.fields.get(a) is not None and caller.fields.get(a) is not None and
+                        out.fields[a].tx == caller.fields[a].tx) for a in set(out.fields) | set(caller.fields)) \
+                and out.state == caller.state and out.dirty == caller.dirty
+            out.facts = frozenset(f for f in env.facts if not f[0].startswith("src:")) | \
+                (frozenset(f for f in caller.facts if f[0].startswith("src:")) if same else frozenset())
+            return fr["k"](v, out, same)
+        finally:
+            self.ctx.frames.append(fr)
+
+    def pure_call(self, node, env, k):
+        """continuation for a helper called inside an expression: it may not have changed the object"""
+        def done(v, out, same):
+            if not same:
+                self.fail(node, "a helper called inside an expression changes the object (call it as a statement)")
+            return k(v)
+        return done
+
     # ------------------------------------------------------------------ assignments
     def assign(self, node, target, value, env, k):
         fam = self.ctx.fam
@@ -795,7 +943,14 @@ class Translator:
                 a = ATTR_ALIAS.get(self.ctx.cls, {}).get(attr, attr)
                 if a in IGNORED and not (fam == "ext"):
                     if not isinstance(value, (ast.Constant, ast.Name)):
-                        self.fail(node, f"self.{attr} (not in the model) is assigned a computed value")
+                        if attr == "_parent":
+                            self.fail(node, "self._parent is assigned something else than the `parent` argument")
+                        # the value is evaluated for what it can raise, then dropped (it must be a plain value)
+                        def drop(v):
+                            if v.ty in ("Self", "P", "PO", "D", "Tuple"):
+                                self.fail(node, f"self.{attr} (not in the model) is given a reference to an object of the model")
+                            return k(env)
+                        return self.expr(value, env, drop)
                     if isinstance(value, ast.Name) and value.id not in env.locals:
                         self.fail(value, f"name `{value.id}`")
                     if attr == "_parent" and not (isinstance(value, ast.Name) and value.id == "parent"):
@@ -850,15 +1005,32 @@ class Translator:
                 e2.fields["_children"] = V("D", nm, prov="self")
                 return f"let {nm} := py_dict_set {kk.tx} {v.tx} {d.tx} in\n{k(e2)}"
             return self.expr(target.value, env, sub)
-        if isinstance(target, ast.Name):
-            if target.id == "self" or target.id in BUILTINS_USED or target.id in BASES:
-                self.fail(node, f"assignment to `{target.id}`")
-            if target.id in env.locals and env.locals[target.id].tx == "p_" + target.id:
-                self.fail(node, f"assignment to the parameter `{target.id}`")
+        if isinstance(target, ast.Tuple):
+            # a, b = <tuple> : only names, only a tuple of the same length (what a helper returns)
+            if not all(isinstance(t, ast.Name) for t in target.elts) or len({t.id for t in target.elts}) != len(target.elts):
+                self.fail(node, "tuple assignment to something else than distinct names")
 
-            def loc(v):
+            def unpack(v, env1):
+                if v.ty != "Tuple" or len(v.items) != len(target.elts):
+                    self.fail(node, f"a value of kind {v.ty} is unpacked into {len(target.elts)} names")
+                e2 = env1.clone()
+                for t, item in zip(target.elts, v.items):
+                    self.check_local_target(node, t.id, env1)
+                    if item.ty == "Tuple":
+                        self.fail(node, "nested tuple")
+                    e2.locals[t.id] = item
+                return k(e2)
+            h = self.inlinable(value, env)
+            if h is not None:
+                return h(lambda v, out, same: unpack(v, out))
+            return self.expr(value, env, lambda v: unpack(v, env))
+        if isinstance(target, ast.Name):
+            self.check_local_target(node, target.id, env)
+
+            def loc(v, env=env):
                 e2 = env.clone()
-                if v.tx is None or v.tx.isidentifier():
+                # a pure projection of a name is substituted, anything bigger is let-bound
+                if v.tx is None or v.tx.isidentifier() or re.fullmatch(r"\((pkey|pprio|keyarg_str|prioarg_q|py_children) \w+\)", v.tx):
                     e2.locals[target.id] = v
                     return k(e2)
                 nm = self.ctx.fresh("v_" + target.id)
@@ -867,8 +1039,40 @@ class Translator:
                     if t == v.tx:
                         e2.facts = e2.facts | {(nm, f)}
                 return f"let {nm} := {v.tx} in\n{k(e2)}"
+            h = self.inlinable(value, env)
+            if h is not None:
+                return h(lambda v, out, same: loc(v, out))
             return self.expr(value, env, loc)
         self.fail(node, f"assignment target {type(target).__name__}")
+
+    def check_local_target(self, node, name, env):
+        if name == "self" or name in BUILTINS_USED or name in BASES:
+            self.fail(node, f"assignment to `{name}`")
+        if name in env.locals and env.locals[name].tx == "p_" + name and not self.ctx.frames:
+            self.fail(node, f"assignment to the parameter `{name}`")
+
+    def inlinable(self, e, env):
+        """when e is a call of a private helper: a function taking the continuation k(value, env after, unchanged?)"""
+        if not isinstance(e, ast.Call):
+            return None
+        f = e.func
+        if isinstance(f, ast.Name) and f.id not in env.locals and f.id not in BUILTINS_USED and f.id not in BASES:
+            fd = self.helper_function(f.id)
+            if fd is not None:
+                return lambda k: self.inline(e, fd, e, env, k, True, "function")
+        if isinstance(f, ast.Attribute) and isinstance(f.value, ast.Name) and f.value.id in self.ctx.mod.classes and \
+                f.value.id not in env.locals and f.value.id in BASES and f.attr not in self.RESERVED_METHODS:
+            # Cls.helper(..) : only a static method of a class of this module
+            owner, fd = self.ctx.mod.find_method(f.value.id, f.attr)
+            if fd is not None and [ast.unparse(d) for d in fd.decorator_list] == ["staticmethod"]:
+                return lambda k: self.inline(e, fd, e, env, k, True, "static method", owner)
+        if isinstance(f, ast.Attribute) and isinstance(f.value, ast.Name) and f.value.id == "self" and \
+                not (self.ctx.frames and self.ctx.frames[-1]["selfless"]):
+            fd, static = self.helper_method(e, f.attr)
+            if fd is not None:
+                owner = self.ctx.mod.find_method(self.ctx.cls, f.attr)[0]
+                return lambda k: self.inline(e, fd, e, env, k, static, "static method" if static else "method", owner)
+        return None
 
     def coerce(self, node, fty, v, env):
         """a value stored in an attribute of the model"""
@@ -948,6 +1152,8 @@ class Translator:
             self.fail(e, f"literal {c!r}")
         if isinstance(e, ast.Name):
             if e.id == "self":
+                if self.ctx.frames and self.ctx.frames[-1]["selfless"]:
+                    self.fail(e, "`self` inside a function / static method")
                 return k(V("Self"))
             if e.id in env.locals:
                 return k(env.locals[e.id])
@@ -970,6 +1176,25 @@ class Translator:
             return self.call(e, env, k)
         if isinstance(e, ast.DictComp):
             return self.dictcomp(e, env, k)
+        if isinstance(e, ast.Tuple):
+            def elts(i, acc):
+                if i == len(e.elts):
+                    return k(V("Tuple", items=list(acc)))
+                return self.expr(e.elts[i], env, lambda v: elts(i + 1, acc + [v]))
+            return elts(0, [])
+        if isinstance(e, ast.IfExp):
+            # a if c else b : the branch taken is the only one evaluated
+            try:
+                return self.cond(e.test, env, lambda e1: self.expr(e.body, e1, k), lambda e1: self.expr(e.orelse, e1, k))
+            except IgnCond as exc:
+                if not within(exc.node, e.test):
+                    raise
+                if not all(isinstance(x, (ast.Constant, ast.Name)) for x in (e.body, e.orelse)):
+                    self.fail(e, "a conditional expression on a value the model does not have chooses between computed values")
+                for x in (e.body, e.orelse):
+                    if isinstance(x, ast.Name) and x.id not in env.locals:
+                        self.fail(x, f"name `{x.id}`")
+                return k(V("Ign"))
         self.fail(e, f"expression {type(e).__name__}")
 
     def add_(self, node, a, b, k):
@@ -1007,6 +1232,8 @@ class Translator:
 
     def attribute(self, e, env, k):
         if isinstance(e.value, ast.Name) and e.value.id == "self":
+            if self.ctx.frames and self.ctx.frames[-1]["selfless"]:
+                self.fail(e, "`self` inside a function / static method")
             a = ATTR_ALIAS.get(self.ctx.cls, {}).get(e.attr, e.attr)
             if a in env.fields:
                 v = env.fields[a]
@@ -1022,6 +1249,8 @@ class Translator:
             self.fail(e, f"attribute self.{e.attr}, which the model does not have here")
 
         def on(x):
+            if x.ty == "P" and x.tx is None:
+                self.fail(e, "a reference obtained for a call that changes the object is used for something else")
             if x.ty == "P":
                 return self.obj_attr(e, x, e.attr, env, k)
             if x.ty == "V" and e.attr == "si":
@@ -1099,8 +1328,13 @@ class Translator:
         ok = ok and isinstance(g.target, ast.Tuple) and len(g.target.elts) == 2 and all(isinstance(x, ast.Name) for x in g.target.elts)
         ok = ok and isinstance(e.key, ast.Name) and isinstance(e.value, ast.Name) and \
             [e.key.id, e.value.id] == [x.id for x in g.target.elts] and e.key.id != e.value.id
-        it = g.iter if ok else None
-        ok = ok and isinstance(it, ast.Call) and isinstance(it.func, ast.Name) and it.func.id == "sorted" and \
+        if not ok:
+            self.fail(e, "dict comprehension other than {k: v for k, v in sorted(d.items(), key=lambda item: item[1])}")
+        return self.sorted_items(e, g.iter, env, k)
+
+    def sorted_items(self, e, it, env, k):
+        """the dict rebuilt from sorted(D.items(), key=lambda item: item[1])"""
+        ok = isinstance(it, ast.Call) and isinstance(it.func, ast.Name) and it.func.id == "sorted" and \
             "sorted" not in env.locals and len(it.args) == 1 and len(it.keywords) == 1 and it.keywords[0].arg == "key"
         if ok:
             lam, src = it.keywords[0].value, it.args[0]
@@ -1111,7 +1345,7 @@ class Translator:
             ok = ok and isinstance(src, ast.Call) and isinstance(src.func, ast.Attribute) and src.func.attr == "items" and \
                 not src.args and not src.keywords
         if not ok:
-            self.fail(e, "dict comprehension other than {k: v for k, v in sorted(d.items(), key=lambda item: item[1])}")
+            self.fail(e, "a dict is rebuilt from something else than sorted(d.items(), key=lambda item: item[1])")
 
         def srt(d):
             if d.ty != "D":
@@ -1123,6 +1357,14 @@ class Translator:
     # ---- calls in expressions
     def call(self, e, env, k):
         f = e.func
+        h = self.inlinable(e, env)
+        if h is not None:
+            return h(self.pure_call(e, env, k))
+        if isinstance(f, ast.Name) and f.id == "dict" and "dict" not in env.locals:
+            # dict(sorted(d.items(), key=lambda item: item[1])) : the same dict, ordered by the values
+            if len(e.args) != 1 or e.keywords:
+                self.fail(e, "dict(..) other than dict(sorted(d.items(), key=lambda item: item[1]))")
+            return self.sorted_items(e, e.args[0], env, k)
         if isinstance(f, ast.Name) and f.id not in env.locals:
             if f.id in ("isinstance", "issubclass", "all"):
                 return self.bool_value(e, env, k)
@@ -1171,6 +1413,8 @@ class Translator:
         self.fail(node, "argument that is not a one-character literal")
 
     def method_call(self, e, r, meth, env, k):
+        if r.ty == "P" and r.tx is None:
+            self.fail(e, "a reference obtained for a call that changes the object is used for something else")
         if r.ty == "S":
             if meth == "split":
                 return k(V("L", f"(py_split {self.one_char(e, e.args, env)} {self.atom(r)})"))
@@ -1185,6 +1429,9 @@ class Translator:
             def g(a):
                 if a.ty != "S":
                     self.fail(e, f"get() with a key of kind {a.ty}")
+                if getattr(self, "ref_mode", False):
+                    # the receiver of a mutating call: the reference, not the object (no lookup is made here)
+                    return k(V("P", None, prov=("getref", r.tx, self.atom(a))))
                 sig = self.method("parameters", "InputParameterMap", "get", "get", e)
                 fuel = self.ctx.fuel if ("parameters", "InputParameterMap", "get", "get") in self.stack else f"(fuel_of {self.atom(a)})"
                 return self.bind(e, env, f"{sig['name']} {fuel} {r.tx} {self.atom(a)}", "p", "P", k,
@@ -1202,7 +1449,7 @@ class Translator:
     # ------------------------------------------------------------------ conditions
     def branch(self, node, v, env, kt, kf, ft=(), ff=(), as_value=None):
         if v.ty == "Ign":
-            raise IgnCond()
+            raise IgnCond(node)
         if v.ty == "RB":                                   # res bool
             b, ex = self.ctx.fresh("b"), self.ctx.fresh("e")
             return (f"match {v.tx} with\n| Raise {ex} => {self.raise_(node, env, ex)}\n| Val {b} =>\n"
@@ -1376,7 +1623,7 @@ class Translator:
             if x.ty == "None":
                 return self.branch(node, V("B", const=positive), env, kt, kf)
             if x.ty == "Ign":
-                raise IgnCond()
+                raise IgnCond(node)
             if x.ty in ("P", "Self"):
                 if op in ("==", "!="):
                     self.eq_none_const(node, op)
@@ -1437,6 +1684,9 @@ class Translator:
             return out(tx if op == "==" else f"(negb {tx})")
         # ---- order
         if op in ("<", "<=", ">", ">="):
+            if a.ty == "Z" and b.ty == "Z":
+                x, y = (self.atom(a), self.atom(b)) if op in ("<", "<=") else (self.atom(b), self.atom(a))
+                return out(f"({x} {'<?' if op in ('<', '>') else '<=?'} {y})%Z")
             if a.ty == "Q" and b.ty == "Q":
                 x, y = (a.tx, b.tx) if op in ("<", "<=") else (b.tx, a.tx)
                 return out(f"({'py_q_lt' if op in ('<', '>') else 'py_q_le'} {x} {y})")
@@ -1472,7 +1722,7 @@ class Translator:
             if kw.arg is None or kw.arg not in pos + kwonly or kw.arg in given:
                 self.fail(call, f"keyword argument `{kw.arg}`")
             given[kw.arg] = kw.value
-        order = [n for n in pos + kwonly if n in given]
+        order = list(pos[:len(call.args)]) + [kw.arg for kw in call.keywords]      # the order they are written (= evaluated) in
         # Python evaluates the arguments in the order they are written; they are all pure names / literals here
         vals = {}
 
@@ -1525,14 +1775,25 @@ class Translator:
                 return (f"match {sig['name']} kls id {' '.join(txs)} with\n| MExn {ex} {pr} => MExn {ex} {pr}\n"
                         f"| MOk {pr} {o} =>\n{ind(k(e2))}\nend")
             return self.bind_args(c, c, bf, env, with_args)
+        h = self.inlinable(c, env)
+        if h is not None:
+            # a helper called for what it raises / changes: its value is dropped
+            return h(lambda v, out, same: k(out))
         if not isinstance(f, ast.Attribute):
             self.fail(c, f"call statement `{ast.unparse(c)[:60]}`")
-        # ---- <map>.get(key).set_value(value)
-        if f.attr == "set_value" and isinstance(f.value, ast.Call) and isinstance(f.value.func, ast.Attribute) \
-                and f.value.func.attr == "get" and fam == "mset":
-            g = f.value
-            if c.keywords or g.keywords or len(c.args) != 1 or len(g.args) != 1:
-                self.fail(c, "get(..).set_value(..) with other than one positional argument each")
+        # ---- <map>.get(key).set_value(value)  (the reference may come out of a helper)
+        if f.attr == "set_value" and fam == "mset":
+            if c.keywords or len(c.args) != 1:
+                self.fail(c, "set_value(..) with other than one positional argument")
+
+            def with_ref(r):
+                self.ref_mode = False
+                try:
+                    if r.ty != "P" or not r.prov or r.prov[0] not in ("getref", "get"):
+                        self.fail(c, "set_value() on something else than what <map>.get(key) returns")
+                    return self.expr(c.args[0], env, lambda v: with_all(V("P", r.prov[1]), V("S", r.prov[2]), v))
+                finally:
+                    self.ref_mode = True
 
             def with_all(r, kk, v):
                 if r.ty != "P" or r.tx != env.state["root"] or kk.ty != "S" or v.ty != "V":
@@ -1546,8 +1807,11 @@ class Translator:
                 e2.fields["_input_parameters"] = V("P", r2)
                 return (f"match gen_InputParameterMap_get__upd (fuel_of {self.atom(kk)}) (fun x => gen_dispatch_set_value x {v.tx}) "
                         f"{r.tx} {self.atom(kk)} with\n| MExn {ex} {r2} => MExn {ex} {r2}\n| MOk {r2} _ =>\n{ind(k(e2))}\nend")
-            return self.expr(g.func.value, env, lambda r: self.expr(g.args[0], env, lambda kk: self.expr(
-                c.args[0], env, lambda v: with_all(r, kk, v))))
+            self.ref_mode = True
+            try:
+                return self.expr(f.value, env, lambda r, *_: with_ref(r))
+            finally:
+                self.ref_mode = False
         # ---- <map>.add(p)
         if f.attr == "add":
             if c.keywords or len(c.args) != 1:
